@@ -33,7 +33,15 @@ impl SwiftField for Field76 {
         let mut lines = Vec::new();
 
         // Parse up to 6 lines of 35 characters each
-        for line in input.lines().take(6) {
+        // More lines than the format allows are an error, not something to drop silently
+        let line_count = input.lines().count();
+        if line_count > 6 {
+            return Err(ParseError::InvalidFormat {
+                message: format!("Field 76 cannot have more than 6 lines, found {}", line_count),
+            });
+        }
+
+        for line in input.lines() {
             // Validate line length (max 35 characters)
             if line.len() > 35 {
                 return Err(ParseError::InvalidFormat {
